@@ -50,8 +50,8 @@ func c04GenIdent(rt *rapid.T, label string, small bool) string {
 }
 
 func TestC04(t *testing.T) {
-	V.Rule("lab: rapid state machines over 1-12 concurrent dialogs per history on services with 2-6 UDP (and one TCP) backends: initial INVITE (UDP or TCP ingress) -> lands on some backend; that backend answers 100 / 18x with To-tag / 2xx / 4xx-6xx with To-tag from its configured address (UDP socket or the proxy's TCP connection); in-dialog ACK, BYE (never answered), re-INVITE, UPDATE, INFO, PRACK, MESSAGE, REFER, OPTIONS, NOTIFY, SUBSCRIBE in both directions (From/To swapped) from any user agent, plain or decorated (display names, URI parameters, compact names); backend-issued SUBSCRIBE answered by the user agent, then NOTIFY / refresh in that dialog; unrelated out-of-dialog requests advancing the rotation in between; stray requests with both tags of an unknown dialog. Identifiers from small alphabets (tags containing '-', equal From and To URIs, tel:/urn: identities) or long ones. Oracle: model pins; a pinned in-dialog request must arrive at the pinned backend and at no other endpoint (FIFO barrier), unpinned/stray ones at exactly one backend. non-trivial = pinned in-dialog request for which the rotation alone would have picked another backend; distinct by (dialog shape, method, direction)")
-	V.Require("pinned request while rotation points elsewhere", "direction: callee->service", "direction: caller->service", "method:ACK", "method:BYE", "method:INVITE", "method:UPDATE", "method:NOTIFY", "method:SUBSCRIBE", "pin by backend-issued SUBSCRIBE", "equal From and To URIs", "tag contains '-'", "unpinned dialog (only 100 so far)", "stray in-dialog request", "tcp backend pinned", "pin by non-2xx final with To-tag")
+	V.Rule("lab: rapid state machines over 1-12 concurrent dialogs per history on services with 2-6 UDP (and one TCP) backends: initial INVITE (UDP or TCP ingress) -> lands on some backend; that backend answers 100 / 18x with To-tag / 2xx / 4xx-6xx with To-tag from its configured address (UDP socket or the proxy's TCP connection); in-dialog ACK, BYE (never answered), re-INVITE, UPDATE, INFO, PRACK, MESSAGE, REFER, OPTIONS, NOTIFY, SUBSCRIBE in both directions (From/To swapped) from any user agent, plain or decorated (display names, URI parameters, compact names); backend-issued SUBSCRIBE answered by the user agent (Expires 3600 / 60 / 0 / absent), refresh and un-subscribe (Expires: 0) by the backend, then NOTIFY in that dialog; unrelated out-of-dialog requests advancing the rotation in between; stray requests with both tags of an unknown dialog. Identifiers from small alphabets (tags containing '-', equal From and To URIs, tel:/urn: identities) or long ones. Oracle: model pins; a pinned in-dialog request must arrive at the pinned backend and at no other endpoint (FIFO barrier), unpinned/stray ones at exactly one backend. non-trivial = pinned in-dialog request for which the rotation alone would have picked another backend; distinct by (dialog shape, method, direction)")
+	V.Require("pinned request while rotation points elsewhere", "direction: callee->service", "direction: caller->service", "method:ACK", "method:BYE", "method:INVITE", "method:UPDATE", "method:NOTIFY", "method:SUBSCRIBE", "pin by backend-issued SUBSCRIBE", "SUBSCRIBE answered with Expires: 0", "equal From and To URIs", "tag contains '-'", "unpinned dialog (only 100 so far)", "stray in-dialog request", "tcp backend pinned", "pin by non-2xx final with To-tag")
 	vars := []stdVariant{{Pool: 2}, {Pool: 3, PoolTCP: true}, {Pool: 6}}
 	var svcs []*stdSvc
 	for _, v := range vars {
@@ -381,6 +381,64 @@ func TestC04(t *testing.T) {
 				d.UAEP = got[0].ep
 				dialogs = append(dialogs, d)
 			},
+			"backendRefreshesSubscription": func(rt *rapid.T) {
+				var cand []*c04Dialog
+				for _, d := range dialogs {
+					if d.BySub && d.Pinned != "" && d.UAEP != nil {
+						cand = append(cand, d)
+					}
+				}
+				if len(cand) == 0 {
+					rt.Skip("no established subscription")
+				}
+				d := cand[rapid.IntRange(0, len(cand)-1).Draw(rt, "sub")]
+				hp := strings.TrimSuffix(d.Backend, "/udp")
+				bh, bp := splitHostPort(hp)
+				bep, _ := s.in.hub.udpEP("backend-udp", bh, bp)
+				exp := rapid.SampledFrom([]string{"3600", "0", "0", "60"}).Draw(rt, "expires")
+				wire := fmt.Sprintf("SUBSCRIBE sip:u@%s:%d SIP/2.0\r\nVia: SIP/2.0/UDP %s:%d;branch=z9hG4bK%s\r\nRoute: <sip:%s:%d;lr>\r\nFrom: %s\r\nTo: %s\r\nCall-ID: %s\r\nCSeq: 2 SUBSCRIBE\r\nEvent: presence\r\nExpires: %s\r\nContent-Length: 0\r\n\r\n",
+					d.UAEP.ip, d.UAEP.port, bh, bp, s.nextID("c04rf"), d.UAEP.ip, d.UAEP.port,
+					ANameAddr{URI: d.UriA, Params: []AParam{{K: "tag", V: d.TagA, HasV: true}}}.String(), ANameAddr{URI: d.UriB, Params: []AParam{{K: "tag", V: d.TagB, HasV: true}}}.String(), d.CallID, exp)
+				hist = append(hist, fmt.Sprintf("%s: backend %s refreshes the subscription with Expires: %s, ua answers with the same", d.ID, hp, exp))
+				V.Journal(t.Name()+"/histories", hist)
+				send := func(b []byte) error { return bep.sendUDP(l.Addr, l.UDPPort, b) }
+				s.model.learnRequest(s.model.transport(0, "udp"), bh, &AMsg{IsReq: true, Hdrs: []AHdr{{Kind: hVia, Vias: []AVia{{Host: bh}}}}})
+				s.in.expect([]byte(wire))
+				if err := send([]byte(wire)); err != nil {
+					V.HarnessError(rt, "send: %v", err)
+				}
+				rs, err := s.in.settle(send, 1)
+				if _, lost := err.(labLost); lost {
+					failf(rt, "%v\nhistory: %v", err, hist)
+				} else if err != nil {
+					V.HarnessError(rt, "%v", err)
+				}
+				got := labMessages(rs)
+				if len(got) != 1 || got[0].ep != d.UAEP {
+					failf(rt, "the backend's refresh SUBSCRIBE must be relayed to the user agent by its Route; receptions:\n%shistory: %v", labDescribe(got), hist)
+				}
+				if len(got[0].msg.Entries(hVia)) != 2 {
+					return // proxy did not insert itself: the answer would not come back through it
+				}
+				resp := buildResponse(got[0].msg, 200, "OK", "", "Expires: "+exp+"\r\n")
+				ep := d.UAEP
+				usend := func(b []byte) error { return ep.sendUDP(l.Addr, l.UDPPort, b) }
+				s.in.expect(resp)
+				if err := usend(resp); err != nil {
+					V.HarnessError(rt, "send: %v", err)
+				}
+				rs, err = s.in.settle(usend, 1)
+				if _, lost := err.(labLost); lost {
+					failf(rt, "%v\nhistory: %v", err, hist)
+				} else if err != nil {
+					V.HarnessError(rt, "%v", err)
+				}
+				got = labMessages(rs)
+				if len(got) != 1 || c04BackendKey(got[0]) != d.Backend {
+					failf(rt, "the answer to the backend's refresh SUBSCRIBE must return to backend %s; receptions:\n%shistory: %v", d.Backend, labDescribe(got), hist)
+				}
+				V.ClassIf(exp == "0", "SUBSCRIBE answered with Expires: 0")
+			},
 			"uaAnswersSubscribe": func(rt *rapid.T) {
 				var cand []*c04Dialog
 				for _, d := range dialogs {
@@ -394,8 +452,11 @@ func TestC04(t *testing.T) {
 				d := cand[rapid.IntRange(0, len(cand)-1).Draw(rt, "sub")]
 				d.TagB = c04GenIdent(rt, "tagB", small)
 				code := rapid.SampledFrom([]int{200, 202}).Draw(rt, "status")
-				resp := buildResponse(d.SubReqAt, code, "OK", d.TagB, "Expires: 3600\r\n")
-				hist = append(hist, fmt.Sprintf("%s: ua%d answers the SUBSCRIBE with %d (To-tag %s)", d.ID, d.UA, code, d.TagB))
+				// a one-shot fetch is answered with Expires: 0; the final NOTIFY still belongs to the dialog
+				exp := rapid.SampledFrom([]string{"Expires: 3600\r\n", "Expires: 0\r\n", "", "Expires: 60\r\n"}).Draw(rt, "expires")
+				resp := buildResponse(d.SubReqAt, code, "OK", d.TagB, exp)
+				V.ClassIf(exp == "Expires: 0\r\n", "SUBSCRIBE answered with Expires: 0")
+				hist = append(hist, fmt.Sprintf("%s: ua%d answers the SUBSCRIBE with %d (To-tag %s, %q)", d.ID, d.UA, code, d.TagB, exp))
 				V.Journal(t.Name()+"/histories", hist)
 				ep := d.UAEP
 				send := func(b []byte) error { return ep.sendUDP(l.Addr, l.UDPPort, b) }
